@@ -276,6 +276,14 @@ def F27(fil):
     return bad > 0, f"read_dedisp_block(start={start}, nsamps={n}, dm={dm}): {bad} cells differ from x[c, t + delay_c] (max delay {int(d.max())})"
 
 
+def F28(fil):
+    from sigpyproc.readers import PFITSReader
+    f = PFITSReader(FITS)
+    dts = {str(d.dtype) for _, _, d in f.read_plan(gulp=64, start=0, nsamps=100, quiet=True)}
+    out = outcome(lambda: f.bandpass(quiet=True).data.dtype)
+    return dts != {"float32"} or out[0] == "exc", f"PFITSReader.read_plan yields {sorted(dts)}; bandpass() -> {out}"
+
+
 ALL = {k: v for k, v in globals().items() if k.startswith("F") and k[1:].isdigit()}
 
 
